@@ -902,6 +902,22 @@ def run(ctx):
                    "numpy / shapely / STRtree are outside the model",
                    "harness/props/c11.py, c11_objs.py (generators, rebuild through public constructors, canonical "
                    "answers, Coq term printer); reads the private cache fields only to classify them"]
+    ctx.trusted.insert(3, "harness/props/cache_src.py: parser of the syntax trees of the public setters of Lanelet (vertex setters), TrajectoryPrediction (trajectory / shape) and Obstacle (initial_state / obstacle_shape) "
+                          "into rows (store / drop / rebuild, in order; conditional tail) of the table of coq/Model/CacheTable.v, "
+                          "with dependency lists derived from what the filling code reads, regenerated on every run as "
+                          "coq/Gen/Src_cachetable.v (fail-closed); C11_lanelet_setters_are_source / C11_trajectory_prediction_setters_are_source / C11_obstacle_setters_are_source instantiate the generic theorem of "
+                          "Proofs/CacheTable.v (every history of checked setters and queries is coherent and answers as a "
+                          "fresh object) with the parsed tables, whose check is evaluated by the kernel; trusted: the parser, "
+                          "its SPECS (which attributes are primary / derived and where the derived ones are filled), and that "
+                          "a rebuild stores the value a fresh object computes (observed by the correspondence)")
+    from props import cache_src
+    try:
+        changed = cache_src.generate()
+        ctx.notes.append(f"Gen/Src_cachetable.v regenerated from the source ({'changed' if changed else 'unchanged'})")
+    except Exception as e:   # SourceShapeError, SyntaxError, OSError: the tables are no longer shown to be the source's
+        ctx.proof_breaks.append({"theorem": "source parser:Gen/Src_cachetable.v (C11_lanelet_setters_are_source / C11_trajectory_prediction_setters_are_source / C11_obstacle_setters_are_source)",
+                                 "where": "harness/props/cache_src.py", "log": str(e)})
+        ctx.log(f"proof_broken theorem=C11_*_setters_are_source (source parser: {e})")
     ctx.build_props()
     if ctx.tier == "thorough":
         ctx.coqchk()
